@@ -24,7 +24,7 @@ RULE = ('Parents: every entry kind and postings, parsed from generated texts who
         'posting, or the existing items use a non-default indent.')
 ASSUMPTIONS = ['with disagreeing sibling indents any sibling\'s indent is accepted (docs and code differ on first vs last)']
 SHRINK_LISTS = ('ops',)
-REQUIRED_CLASSES = ('meta-view-used-before', 'parent-reindented', 'route:map-set', 'route:raw-append', 'route:comment-append', 'route:comment-setter', 'route:from_value', 'route:constructed', 'constructed:from_value', 'constructed:from_children', 'constructed:cleared', 'parent:posting', 'parent:entry',
+REQUIRED_CLASSES = ('meta-view-used-before', 'parent-reindented', 'route:map-set', 'map-set:update', 'map-set:setdefault', 'route:raw-append', 'route:comment-append', 'route:comment-setter', 'route:from_value', 'route:constructed', 'constructed:from_value', 'constructed:from_children', 'constructed:cleared', 'parent:posting', 'parent:entry',
                     'layout:none', 'layout:uniform', 'layout:mixed')
 
 ENTRY_KINDS = sorted(L.G.ENTRY_KINDS)
@@ -88,7 +88,16 @@ def run_case(case: dict) -> Result:
             key = case['key']
             if any(x.key == key for x in items):
                 return Result(discard=True)
-            P.meta[key] = D.decode(case['v'])
+            how = case.get('how', 'setitem')
+            classes.add('map-set:' + how)
+            if how == 'update':
+                P.meta.update({key: D.decode(case['v'])})
+            elif how == 'update-kw' and key.isidentifier():
+                P.meta.update(**{key: D.decode(case['v'])})
+            elif how == 'setdefault':
+                P.meta.setdefault(key, D.decode(case['v']))
+            else:
+                P.meta[key] = D.decode(case['v'])
             new_item = [x for x in P.raw_meta_with_comments if type(x).__name__ == 'MetaItem' and x.key == key][-1]
             got = new_item.indent
             allowed = set(sib) if sib else {parent_indent + eff_by}
@@ -282,7 +291,8 @@ def _build(tier: str):
         chunk = g.join_lines(lines)
         case = {'dirs': [chunk], 'target': target, 'route': route, 'indent_by': iby, 'key': g.meta_key()[1][:-1] + 'x', 'v': D.value('meta_value', g),
                 'x': blanks() if g.p(0.8) else '', 'text': D.comment_value(g), 'attr': g.pick(['leading_comment', 'trailing_comment']),
-                'on_meta': g.p(0.5), 'oi': g.n(0, 3), 'prime_meta': g.p(0.5), 'reindent': blanks() if g.p(0.4) else None, 'reindent_raw': g.p(0.3)}
+                'on_meta': g.p(0.5), 'oi': g.n(0, 3), 'prime_meta': g.p(0.5), 'reindent': blanks() if g.p(0.4) else None, 'reindent_raw': g.p(0.3),
+                'how': g.pick(['setitem', 'setitem', 'update', 'update-kw', 'setdefault'])}
         if route == 'comment-setter' and not posting and k == 0:
             case['route'] = 'map-set'
         return case
